@@ -450,11 +450,66 @@ fn generated(seed: u64, index: u64) -> (String, Vec<&'static str>) {
     (p.render(), p.features)
 }
 
+/// Programs with a placeholder `@Q@` in front of the type of a parameter or local that is only read. A qualifier that does not
+/// change what the function computes (`const`; `row_major` / `column_major` on a matrix that is only read element-wise through
+/// the same source expressions) must not change whether the Metal exporter accepts the function (and with which diagnostic it
+/// refuses it): the exporter decides by type, and the type with its qualifiers removed is the same.
+const QUALIFIER_TEMPLATES: &[(&str, bool)] = &[
+    ("float3 row1(@Q@float3x3 m) { return m[1]; }\n", true),
+    ("float el(@Q@float2x2 m) { return m[1][0] + m[0][1]; }\n", true),
+    ("float3 loc(float x) { @Q@float3x3 m = float3x3(1.0f, 2.0f, 3.0f, 4.0f, 5.0f, 6.0f, 7.0f, 8.0f, x); return m[2]; }\n", true),
+    ("float2 dyn(@Q@float2x2 m, uint i) { return m[i & 1u]; }\n", true),
+    ("float nsq(@Q@float2x3 m) { return m[1].z + m[0][2]; }\n", true),
+    ("float4 mv(@Q@float4x4 m, float4 v) { return mul(m, v) + m[3]; }\n", true),
+    ("struct S { float2x2 m; float k; };\nfloat sm(@Q@S s) { return s.m[1][1] + s.k; }\n", false),
+    ("float vec(@Q@float4 a, uint i) { return a[i & 3u] + a.y; }\n", false),
+    ("float arr(@Q@float a[4], uint i) { return a[i & 3u] + a[0]; }\n", false),
+    ("float4 sw(@Q@float4 a) { return a.wzyx + a.xxyy; }\n", false),
+    ("float call_in(float v) { return v * 2.0f; }\nfloat pass(@Q@float2x2 m) { return call_in(m[0][0]) + call_in(m[1].y); }\n", true),
+];
+
+fn qualifier_neutrality(index: usize, report: &mut Report) {
+    let (template, is_matrix) = QUALIFIER_TEMPLATES[index];
+    let compile = |q: &str| -> (String, String) {
+        let text = template.replace("@Q@", q);
+        match rs::compile_text(&text, &Opts::new(Tgt::Msl, Mode::NoPipeline)) {
+            // (the text is not compared: removing a const makes conversions explicit, `(float)a.y`)
+            Outcome::Ok(_) => ("accepted".to_string(), String::new()),
+            Outcome::Diag(d) => (format!("rejected: {}", d.lines().next().unwrap_or("").split(": error: ").last().unwrap_or("")), String::new()),
+            Outcome::Panic(c) => (format!("panic: {}", c.signature()), String::new()),
+            Outcome::Budget { .. } => ("budget".to_string(), String::new()),
+        }
+    };
+    let base = compile("");
+    let qualifiers: &[&str] = if is_matrix { &["const ", "row_major ", "column_major ", "const row_major "] } else { &["const "] };
+    for q in qualifiers {
+        let with = compile(q);
+        report.evaluations += 1;
+        report.count(&format!("qualifier-neutrality:{}:{}", q.trim(), base.0.split(':').next().unwrap_or("")));
+        if with != base {
+            let what = if with.0 != base.0 { format!("verdict `{}` becomes `{}`", base.0, with.0) } else { "the emitted text differs beyond the qualifier".to_string() };
+            report.violation(
+                &format!("qualifier-changes-metal-export:{}", q.trim().replace(' ', "-")),
+                &format!("adding `{}` to a value that is only read changes the Metal export: {} ({})", q.trim(), what, template.lines().last().unwrap_or("").trim()),
+                Json::obj().set("origin", "qualifier-neutrality").set("arg_seed", "1").set("program", template.replace("@Q@", q)).set("program_without_qualifier", template.replace("@Q@", "")).set("without", base.0.as_str()).set("with", with.0.as_str()),
+            );
+        }
+    }
+    report.distinct(hash_str(template));
+}
+
 fn run(ctx: &Ctx) -> Report {
     let directed = directed_programs();
     let n_generated = ctx.tier.pick(3_000, 120_000);
     let n = directed.len() as u64 + n_generated;
     let seed = ctx.seed;
+    let neutrality = crate::par::run_cases(ctx, QUALIFIER_TEMPLATES.len() as u64, |index, report| qualifier_neutrality(index as usize, report));
+    let mut report = run_programs(ctx, directed, n, seed);
+    report.merge(neutrality);
+    report
+}
+
+fn run_programs(ctx: &Ctx, directed: Vec<String>, n: u64, seed: u64) -> Report {
     crate::par::run_cases(ctx, n, |index, report| {
         let (text, origin, features) = if (index as usize) < directed.len() {
             (directed[index as usize].clone(), format!("directed:{}", index), vec!["directed-call-graph"])
